@@ -97,13 +97,13 @@ fn project_ext(o: &Obj) -> Value {
 
 fn main() {
     let args: Vec<String> = std::env::args().collect();
-    let edges = read_ndjson(&args[1]);
     let mut out = NdjsonOut::create(&args[2]);
     quiet_panics();
     let rt = tokio::runtime::Builder::new_current_thread().enable_all().build().unwrap();
     let mut rng = Rng::from_env();
     let (mut steps, mut panics, mut drift) = (0u64, 0u64, 0u64);
-    for (idx, e) in edges.iter().enumerate() {
+    let n_edges = for_each_ndjson(&args[1], |idx, e| {
+        let e = &e;
         let res = catch(|| {
             rt.block_on(async {
                 let o = fresh(&e["cfg"]);
@@ -158,7 +158,7 @@ fn main() {
                 }
             }
         }
-    }
-    out.push(&json!({"type": "summary", "edges": edges.len(), "steps": steps, "panics": panics, "drift": drift}));
+    });
+    out.push(&json!({"type": "summary", "edges": n_edges, "steps": steps, "panics": panics, "drift": drift}));
     out.finish();
 }
